@@ -26,7 +26,7 @@ META = {
 }
 
 COQ_FILES = ["C04/GenChecks.v", "C04/GenLegacy.v", "C04/AllocModel.v", "C04/AllocProofs.v", "C04/LegacyProofs.v", "C04/LegacyTie.v",
-             "C04/Frames.v", "C04/Concretize.v", "C04/MemLiveness.v", "C04/Checks.v", "C04/PropsC04.v"]
+             "C04/Frames.v", "C04/Concretize.v", "C04/MemLiveness.v", "C04/Fmp.v", "C04/Checks.v", "C04/PropsC04.v"]
 IMPORTS = "From Verif Require Import C04.AllocModel.\n"
 
 
